@@ -24,7 +24,8 @@ Record zlike (A : arith) (S : Z) := {
   (* a multiplier compares equal to one exactly when it is one (also under the fuzzy Guarded comparison) *)
   r_eqv_one : forall a n, raw a = n * S -> eqv A a (of_int A 1) = (n =? 1);
   r_kmuldiv0 : forall a b c up, raw c = 0 -> kmuldiv A a b c up = Raise ZeroDivisionError;
-  r_eps : 1 <= raw (epsilon A)
+  r_eps : 1 <= raw (epsilon A);
+  r_truth : forall a, truth A a = negb (raw a =? 0)
 }.
 Arguments raw {A S}.
 
@@ -38,7 +39,7 @@ Lemma zlike_fixed p d : 0 <= p -> zlike (Fixed p d) (10 ^ p).
 Proof.
   intros Hp. pose proof (pow10_pos'' p Hp) as HS.
   assert (HS': f_scale (mk_fixed_cls p d) <> 0) by (cbn; lia).
-  refine {| raw := fun a : T (Fixed p d) => (a : Z) |}; cbn [Fixed T of_int add sub mulv divv kmuldiv ltv gev eqv gtv exact rnd_of epsilon].
+  refine {| raw := fun a : T (Fixed p d) => (a : Z) |}; cbn [Fixed T of_int add sub mulv divv kmuldiv ltv gev eqv gtv exact rnd_of epsilon truth].
   - auto.
   - exact HS.
   - intros n. reflexivity.
@@ -56,6 +57,7 @@ Proof.
     subst a. destruct (n * 10 ^ p =? 1 * 10 ^ p) eqn:E; destruct (n =? 1) eqn:E2; try reflexivity; nia.
   - intros a b c up Hc. cbn in Hc. subst c. unfold FixedKernels.muldiv. cbn [FixedKernels.init FixedKernels.init_r]. cbv zeta. unfold pydivmod. cbn [Z.eqb bind]. reflexivity.
   - cbn. lia.
+  - intros a. unfold res_true. cbn. destruct (a =? 0); reflexivity.
 Defined.
 
 Lemma zlike_guarded p g d s : 0 <= p -> 0 <= g -> zlike (Guarded p g d s) (10 ^ (p + g)).
@@ -63,7 +65,7 @@ Proof.
   intros Hp Hg. pose proof (pow10_pos'' (p + g) ltac:(lia)) as HS.
   set (st := mk_guarded_cls p g d s).
   assert (HS': g_scale st = 10 ^ (p + g)) by reflexivity.
-  refine {| raw := fun a : T (Guarded p g d s) => (a : Z) |}; cbn [Guarded T of_int add sub mulv divv kmuldiv ltv gev eqv gtv exact rnd_of epsilon]; fold st.
+  refine {| raw := fun a : T (Guarded p g d s) => (a : Z) |}; cbn [Guarded T of_int add sub mulv divv kmuldiv ltv gev eqv gtv exact rnd_of epsilon truth]; fold st.
   - auto.
   - exact HS.
   - intros n. reflexivity.
@@ -109,4 +111,5 @@ Proof.
   - intros a b c up Hc. cbn in Hc. subst c. unfold GuardedKernels.muldiv. cbn [GuardedKernels.init GuardedKernels.init_r]. cbv zeta.
     unfold pydivmod, pydiv. cbn [Z.eqb bind]. destruct (truthy (g_guard st)); reflexivity.
   - cbn. lia.
+  - intros a. unfold res_true. cbn. destruct (a =? 0); reflexivity.
 Defined.
